@@ -12,13 +12,12 @@ Prop  == IOEnv.PROP
 VARIABLES l
 vars == <<l>>
 
-MembersEq(cfg, s, t) == /\ \A x \in Members(s) : Hit(cfg, t, x)
-                        /\ \A x \in Members(t) : Hit(cfg, s, x)
+MembersEq(cfg, s, t) == KeySet(cfg, s) = KeySet(cfg, t)
 \* an observation of a set object is internally consistent
 ObsWF(cfg, o) ==
   /\ o.size = Len(o.vals)
-  /\ \A i, j \in DOMAIN o.vals : KeyEq(cfg, o.vals[i], o.vals[j]) => i = j
-  /\ \A i \in DOMAIN o.has : o.has[i][2] = Hit(cfg, o.vals, o.has[i][1])
+  /\ NoDupKeys(cfg, o.vals)
+  /\ LET K == KeySet(cfg, o.vals) IN \A i \in DOMAIN o.has : o.has[i][2] = (KeyOf(cfg, o.has[i][1]) \in K)
 SameObj(cfg, a, b) == MembersEq(cfg, a.vals, b.vals) /\ a.size = b.size /\ a.has = b.has
                       /\ ((cfg.sorted \/ cfg.linked) => a.vals = b.vals)
 
